@@ -23,7 +23,7 @@ func TestSweep(t *testing.T) {
 					for b := a; b <= K; b++ {
 						spare := C * (K - b)
 						for n := 0; n <= spare+C+1; n++ {
-							Oracle.One(t, env, rec, "sweep", &Case{T: tn, C: C, Kr: K, A: a, B: b, N: n, Vals: []int64{9, 0, 127}})
+							Oracle.One(t, env, rec, "sweep", &Case{T: tn, C: C, Kr: K, A: a, B: b, N: n, Fix: (n + b) % 3, Vals: []int64{9, 0, 127}})
 						}
 						Oracle.One(t, env, rec, "sweep", &Case{T: tn, C: C, Kr: K, A: a, B: b, N: 3*C*(K-a) + 5, Vals: []int64{9, 0, 127}})
 					}
